@@ -13,7 +13,9 @@ CLAIM = dict(
           "and after destroying both every block allocated has been freed exactly once; self-assignment is the identity on object "
           "and heap; operations on one object never touch the other. utl::static_vector<Cap> — after any history its contents ARE "
           "those of a capacity-bounded std::vector (a sized construction, push_back or resize beyond the capacity is refused and "
-          "leaves the object unchanged / empty), size() <= capacity always. (Three repairs found here are in the tree: vector "
+          "leaves the object unchanged / empty), size() <= capacity always. nmtools::small_vector<T,DIM> (default configuration: "
+          "inline utl::static_vector / heap std::vector) — after any history its contents ARE the std::vector contents, including "
+          "shrink-then-grow across DIM (the spill copies the live cells only) and sized construction on either side of DIM. (Three repairs found here are in the tree: vector "
           "destructor, static_vector(n) capacity test, value-initialisation of the cells exposed by a growing resize / the sized "
           "constructor.) REFUTED (known findings): maybe / either of a non-trivial type assign into raw storage and never run the "
           "destructor; small_vector over the utl types leaks and assigns into raw storage once it leaves its static arm. "
@@ -22,7 +24,9 @@ CLAIM = dict(
           "allocator, in NDEBUG and ASan+UBSan builds."),
     ref="5.19", technique="Coq proof (state-machine refinement + heap invariant by induction over histories) + differential "
                           "correspondence with the extracted model", extra="")
-RULE = ("utl::vector<int>, utl::static_vector<int,4>, small_vector<int,4> (utl either/static_vector/vector): every history of length "
+RULE = ("utl::vector<int>, utl::static_vector<int,4>, small_vector<int,4> (default configuration AND utl either/static_vector/vector): every history of length 5 over "
+        "{push, write, resize to 0,1,DIM-1,DIM,DIM+1,DIM+2} with distinct non-zero values (all 32 768 for the default small_vector, 1/8 for the "
+        "others in the quick tier); every history of length "
         "<= 4 (quick; <= 5 thorough, <= 6 sampled) over {d, c0, c2, c5, p, r0, r2, r5, w0, w3, k, a/b, s, f} with distinct pushed "
         "values, plus seeded random histories of length <= 60 with resize targets 0..cap+2; utl::array<int,4>; utl::maybe<int> / "
         "utl::either<int,long> and the same with a counting non-trivial element type: every history of length <= 4 over their "
@@ -32,14 +36,16 @@ RULE = ("utl::vector<int>, utl::static_vector<int,4>, small_vector<int,4> (utl e
 THEOREM_STATUS = {
     "proved": ["C19_vector_refines_std", "C19_vector_memory_and_allocation_balance",
                "C19_static_vector_refines_bounded_std", "C19_static_vector_refuses_beyond_capacity",
-               "C19_self_assignment_harmless", "C19_copies_independent"],
+               "C19_self_assignment_harmless", "C19_copies_independent", "C19_small_vector_refines_std"],
     "partial": [],
     "refuted": ["C19_nontrivial_maybe_refuted"]}
 ASSUMPTIONS = ["malloc never fails (every constructor gets a block; malloc(0) is a block of length 0)",
                "the heap is abstract: block identity, length, alloc/free events; real out-of-bounds / lifetime errors are observed "
                "by ASan and the counting allocator on the explored histories, not proved absent (partial for real memory safety)",
                "element type int for the sequence containers; array / tuple / maybe / either of trivial types: the model coincides "
-               "with the spec (correspondence only); small_vector has no Coq state machine (correspondence only)",
+               "with the spec (correspondence only); small_vector is modelled and proved for its default configuration (std::variant "
+               "/ std::vector heap arm taken as a list); the all-utl configuration is correspondence only and is undefined behaviour "
+               "beyond the inline arm (known finding)",
                "out-of-range element writes are not part of a history (the harness writes only when i < size())"]
 
 
@@ -56,7 +62,7 @@ def concretise(sym, step):
     """give value-carrying symbols a value that identifies the step"""
     v = 11 * (step + 1)
     if sym == "p": return "p%d" % v
-    if sym in ("w0", "w3"): return "%s.%d" % (sym, v + 1)
+    if sym in ("w0", "w1", "w3"): return "%s.%d" % (sym, v + 1)
     if sym in ("v", "c", "l", "q") : return "%s%d" % (sym, v)
     return sym
 
@@ -67,14 +73,24 @@ def gen_cases(rng, tier):
     def hist(kind, syms): return kind + " " + " ".join(concretise(s, i) for i, s in enumerate(syms))
     maxlen = 4 if tier == "quick" else 5
     seq_alpha = [s for s in SEQ_ALPHA if s != "b"] if tier == "quick" else SEQ_ALPHA
-    for kind in ("vec", "svec", "small"):
+    for kind in ("vec", "svec", "small", "smalls"):
         add("exhaustive", kind)
         for n in range(1, maxlen + 1):
             for syms in itertools.product(seq_alpha, repeat=n):
+                # the utl configuration of small_vector is undefined behaviour once it leaves the inline arm (known
+                # finding): a third of its length-4 histories is enough in the quick tier
                 if n == maxlen and kind == "small" and tier == "quick" and (zlib.crc32(" ".join(syms).encode()) % 3): continue
                 add("exhaustive", hist(kind, syms))
         if tier == "thorough":
             for _ in range(60000): add("sampled-6", hist(kind, [rng.choice(SEQ_ALPHA) for _ in range(6)]))
+    # small_vector: shrink-then-grow across the inline capacity.  Every history of length 5 over distinct non-zero writes
+    # (push / write) and resize to {0, 1, DIM-1, DIM, DIM+1, DIM+2}, plus copy-construction
+    spill_alpha = ["p", "w1", "r0", "r1", "r%d" % (CAP - 1), "r%d" % CAP, "r%d" % (CAP + 1), "r%d" % (CAP + 2)]
+    if tier == "thorough": spill_alpha.append("k")
+    for kind in ("smalls", "small", "svec", "vec"):
+        for syms in itertools.product(spill_alpha, repeat=5):
+            if kind != "smalls" and tier == "quick" and (zlib.crc32((kind + " ".join(syms)).encode()) % 8): continue
+            add("spill-5", hist(kind, syms))
     for n in range(1, 5):
         for syms in itertools.product(["w0", "w3", "k", "a", "b", "s", "f"], repeat=n): add("exhaustive", hist("arr", syms))
     for kind, alpha in (("may", MAY_ALPHA), ("mayt", MAY_ALPHA), ("eit", EIT_ALPHA), ("eitt", EIT_ALPHA)):
@@ -82,7 +98,7 @@ def gen_cases(rng, tier):
             for syms in itertools.product(alpha, repeat=n): add("exhaustive", hist(kind, syms))
     # seeded long histories: growth across the capacity, shrink-then-grow, copy-then-mutate-source, assignment between sizes
     nrand = 1500 if tier == "quick" else 20000
-    for kind in ("vec", "svec", "small"):
+    for kind in ("vec", "svec", "small", "smalls"):
         for _ in range(nrand):
             n = rng.randint(5, 60); toks = []
             for i in range(n):
@@ -174,5 +190,11 @@ def classify(line, impl, spec, model):
             return "nontrivial-maybe-either-raw-assign-no-destructor"
         return None
     if kind == "small" and enters_dynamic_arm(hist):
-        return "small_vector-utl-dynamic-arm-leak-raw-assign"
+        # utl::either<static_vector, utl::vector> is undefined behaviour from here on (assignment / copy of a utl::vector
+        # into raw union storage, no destructor): a trap, a leak, and sometimes garbage in a copy (e.g. `small r5 r0 r1 r4 k`).
+        # The contents of small_vector's own logic are judged exactly on the default configuration (kind smalls).
+        d = _parts(impl) if "|" in impl else None
+        if impl.startswith("trap") or (d and d.get("std") == spec.strip() and not _heap_ok(d.get("heap"))):
+            return "small_vector-utl-dynamic-arm-leak-raw-assign"
+        return None
     return None
